@@ -262,6 +262,26 @@ def efcFwd (f : Func) (ad : AD K) (row col : Nat) : K :=
   let ur := locate f.retSizes row
   fwdBlock ad (eyeSeed f.colSizes) f.isize (f.retShape ur.1) ur.1 ur.2 col
 
+/-- A function with a single, non-tuple return value: `jac_forward(...)(*invals)` is then one array
+and `for a in ...` iterates over its *first axis*.  For a scalar return the pieces are the `nt`
+scalars (`a.reshape((1, 1))`, `osize == 1`: `j[0, start:end] = a`, one column per piece); otherwise
+piece `i` has shape `rest ++ [nt]`, is reshaped to `(prod rest, nt)` and written to the rows
+`i * prod rest ...`.  (When `osize == 1` with a non-scalar shape the code assigns the `(1, nt)`
+piece to `j[0, 0:1]`, which NumPy accepts only for `nt = 1`; in the fwd branch `isize ≤ osize`, so
+that is the only reachable case.) -/
+def fwdBlockSingle (ad : AD K) (seed : Nat → Nat → Nat → K) (nt : Nat) (so : List Nat) (u r c : Nat) :
+    K :=
+  match so with
+  | [] => ad.jvp (seed c) u 0
+  | s0 :: rest =>
+    let whole := jacFwdTensor ad seed nt (s0 :: rest) u
+    let piece : Tensor K := ⟨rest ++ [nt], fun idx => whole.get (r / prod rest :: idx)⟩
+    (piece.reshape [prod rest, nt]).get [r % prod rest, c]
+
+/-- The fwd branch for a function with one bare return value. -/
+def efcFwdSingle (f : Func) (ad : AD K) (row col : Nat) : K :=
+  fwdBlockSingle ad (eyeSeed f.colSizes) f.isize (f.retShape 0) 0 row col
+
 /-- `jac_reverse(f, argnums, tangents)(*invals)`, the array for argument `p`: `vmap` over axis 0, so
 the shape is `[nc] ++ in_shape` and entry `(i, mi)` is the vjp of cotangent `i` at multi-index `mi`. -/
 def jacRevTensor (ad : AD K) (seed : Nat → Nat → Nat → K) (nc : Nat) (si : List Nat) (p : Nat) :
